@@ -496,7 +496,8 @@ def gate_of(src, body, side, notes, what):
     for a, b in top_statements(pre):
         st = pre[a:b]
         flat = re.sub(r"\s+", " ", st).strip()
-        if re.match(r"#\s*\[cfg\(rip_verif\)\]\s*rip_kernel\s*::\s*verif\s*::\s*point\s*\(", flat):
+        # verification-only statements (hooks: scheduling points, injected failures) do not exist in the production build
+        if re.match(r"#\s*\[\s*cfg\s*\(\s*rip_verif\s*\)\s*\]", flat):
             continue
         early = re.search(r"\breturn\b", st) or re.search(r"\?\s*(?:;|\.|\)|,|$)", st)
         if not early:
